@@ -34,7 +34,14 @@ def run(tier, seed, selftest=False, replay=None):
         g, all_cases = gen()
         gstates = (g.distinct, g.generated)
         rnd.shuffle(all_cases)
-        cases = all_cases[:3000] if tier == "quick" else all_cases
+        if tier == "quick":
+            # stratified: the whole slice with default switches and (no | default) variance choices, plus a random sample of the rest
+            def base(c):
+                q = c["id"]
+                return not q["sw"]["disUse"] and not q["sw"]["disContra"] and (not q["choices"]["on"] or not q["choices"]["m"])
+            cases = [c for c in all_cases if base(c)] + [c for c in all_cases if not base(c)][:1500]
+        else:
+            cases = all_cases
         for k, c in enumerate(cases):
             c["k"] = k
             c["lang"] = LANGS[(k + seed) % 4]
@@ -87,7 +94,7 @@ def run(tier, seed, selftest=False, replay=None):
         "evaluations": leaves, "distinct_nontrivial": n_out,
         "rule": "TLC enumerates declarations G1..G6 (1-3 parameters; bounds none / Number / earlier parameter / chain T3:T2:T1 / Foo<T1>; every "
                 "variance) x every partial pre-assignment from a 7-term pool (projections included) x 5 variance-choice settings x 4 switch "
-                "settings, for classes and generic functions; each case is executed under the choice oracle (every random outcome up to a leaf "
+                "settings, for classes and generic functions (quick: the complete slice with default switches and no/default variance choices + 1500 sampled others); each case is executed under the choice oracle (every random outcome up to a leaf "
                 "budget; pools with an abstract class, and in half of the cases a bare constructor and a primitive); evaluations = executions, "
                 "distinct_nontrivial = distinct outcomes, each validated by TLC with InstBad",
         "cases": n_events, "exhaustive": tier != "quick",
